@@ -83,6 +83,9 @@ pub fn no_panic<T>(f: impl FnOnce() -> T) -> Result<T, String> {
 
 /// true if a failure message is a panic raised from the harness' own source files
 pub fn is_harness_panic(msg: &str) -> bool {
+    if msg.starts_with("harness:") {
+        return true;
+    }
     if let Some(at) = msg.rfind(" @ ") {
         let loc = &msg[at + 3..];
         msg.contains("panic:") && (loc.starts_with("rsv/src") || loc.starts_with("rsv-neon/src/neon_emu") || loc.contains("/harness/rsv"))
@@ -452,6 +455,11 @@ impl Run {
             part_stats.merge(st);
             if first_failure.is_none() {
                 first_failure = f;
+            }
+        }
+        for (k, v) in &part_stats.counters {
+            if k.starts_with("inconclusive_") && *v > 0 {
+                self.inconclusive.push(format!("{part}: {k} = {v}"));
             }
         }
         let aborted = part_stats.counters.get("aborted_workers").copied().unwrap_or(0);
